@@ -102,6 +102,17 @@ let () =
                  let ns = parse_ns f.(5) in
                  let e = unesc f.(6) in
                  implode (if kind = "sel" then run_sel d hasns e ns c else run_eval d hasns e ns c)
+               | "selall" | "evalall" ->
+                 let (d, hasns) = Hashtbl.find docs f.(3) in
+                 let ns = parse_ns f.(5) in
+                 let e = unesc f.(6) in
+                 implode (if kind = "selall" then run_sel_all d hasns e ns else run_eval_all d hasns e ns)
+               | "hist" ->
+                 let (d, hasns) = Hashtbl.find docs f.(3) in
+                 let c = parse_addr f.(4) in
+                 let ns = parse_ns f.(5) in
+                 let e = unesc f.(6) in
+                 implode (if f.(7) = "sel" then run_sel d hasns e ns c else run_eval d hasns e ns c)
                | "compile" -> implode (run_compile (unesc f.(6)) (parse_ns f.(5)))
                | "parse" -> implode (run_parse (unesc f.(6)) (parse_ns f.(5)))
                | "qdump" -> implode (run_qdump (unesc f.(6)) (parse_ns f.(5)))
